@@ -16,8 +16,12 @@ import (
 	"fmt"
 	"go/types"
 	"math/big"
+	"os"
+	"path/filepath"
+	"regexp"
 	"sort"
 	"strings"
+	"time"
 
 	"golang.org/x/tools/go/ssa"
 )
@@ -558,4 +562,147 @@ func c09RuneWidth(run *PropRun) {
 	for k := range c.Assumed {
 		run.Assumed[k] = true
 	}
+}
+
+// ---- C11 / C18: bounded stand-in for the charset decoders (x/text tables are outside the verifier's reach) ----
+
+// c11Charsets runs, natively against the real code, the real input driver (tScreen.collectEventsFromInput) and the real
+// SimulationScreen.InjectKeyBytes on EVERY character of every registered stateless charset (registration list
+// extracted mechanically from /repo/encoding/all.go on every run), delivered in one read and split at every byte
+// boundary: exactly one rune key event with that character must come out and nothing may stay buffered.
+// This is an exhaustive enumeration over single characters, labelled BOUNDED - it validates the assumption the parseRune / InjectKeyBytes contracts make
+// about the decoder (no output for a proper prefix of a character), it is not a proof.
+func c11Charsets(run *PropRun) {
+	data, err := os.ReadFile(filepath.Join(run.Eng.Repo, "encoding", "all.go"))
+	if err != nil {
+		panic(VerErr{"UNDECIDED: cannot read encoding/all.go: " + err.Error()})
+	}
+	re := regexp.MustCompile(`tcell\.RegisterEncoding\("([^"]+)",\s*([a-z]+)\.([A-Za-z0-9_]+)\)`)
+	type ent struct{ name, pkg, v string }
+	var ents []ent
+	for _, m := range re.FindAllStringSubmatch(string(data), -1) {
+		if m[1] == "ISO2022JP" || m[1] == "GB2312" { // escape-driven 7-bit encodings: excluded by the property
+			continue
+		}
+		ents = append(ents, ent{m[1], m[2], m[3]})
+	}
+	if len(ents) < 10 {
+		panic(VerErr{fmt.Sprintf("UNDECIDED: only %d charset registrations found in encoding/all.go", len(ents))})
+	}
+	step := 1 // every character (the enumeration costs a few seconds)
+	var tbl strings.Builder
+	for _, e := range ents {
+		p := e.pkg
+		if p == "encoding" {
+			p = "gencoding"
+		}
+		fmt.Fprintf(&tbl, "\t\t{%q, %s.%s},\n", e.name, p, e.v)
+	}
+	src := replayTest("tcell", []string{"bytes", "golang.org/x/text/encoding", "github.com/gdamore/encoding as gencoding", "golang.org/x/text/encoding/charmap", "golang.org/x/text/encoding/japanese", "golang.org/x/text/encoding/korean",
+		"golang.org/x/text/encoding/simplifiedchinese", "golang.org/x/text/encoding/traditionalchinese", modPath + "/terminfo"}, fmt.Sprintf(`
+	sets := []struct {
+		name string
+		enc  encoding.Encoding
+	}{
+%s	}
+	step := %d
+	for _, cs := range sets {
+		s := &tScreen{ti: &terminfo.Terminfo{}}
+		s.cells.Resize(80, 24)
+		s.decoder = cs.enc.NewDecoder()
+		RegisterEncoding("verif-"+cs.name, cs.enc)
+		sim := NewSimulationScreen("verif-" + cs.name).(*simscreen)
+		if err := sim.Init(); err != nil {
+			fmt.Printf("CHARSET %%s FAIL simulation init: %%v\n", cs.name, err)
+			continue
+		}
+		encd := cs.enc.NewEncoder()
+		n, bad, badSim := 0, "", ""
+		one := func(evs []Event, r rune) bool {
+			if len(evs) != 1 {
+				return false
+			}
+			k, ok := evs[0].(*EventKey)
+			return ok && k.Key() == KeyRune && k.Rune() == r
+		}
+		idx := 0
+		for r := rune(0x80); r <= 0x10FFFF; r++ {
+			if r >= 0xD800 && r <= 0xDFFF || r == 0xFFFD {
+				continue // U+FFFD is what the decoders substitute for invalid input; the library drops it by design
+			}
+			encd.Reset()
+			eb, err := encd.Bytes([]byte(string(r)))
+			if err != nil || len(eb) == 0 {
+				continue
+			}
+			if db, err := cs.enc.NewDecoder().Bytes(eb); err != nil || string(db) != string(r) {
+				continue // not a character this charset round-trips
+			}
+			idx++
+			if len(eb) > 1 && step > 1 && idx%%step != 0 {
+				continue
+			}
+			n++
+			for k := len(eb); k >= 1 && bad == ""; k-- {
+				buf := bytes.NewBuffer(append([]byte(nil), eb[:k]...))
+				evs := s.collectEventsFromInput(buf, false)
+				if k < len(eb) {
+					buf.Write(eb[k:])
+					evs = append(evs, s.collectEventsFromInput(buf, false)...)
+				}
+				if !one(evs, r) || buf.Len() != 0 {
+					bad = fmt.Sprintf("U+%%04X (bytes %% x) delivered with a read boundary after %%d byte(s): %%d events, %%d bytes left", r, eb, k, len(evs), buf.Len())
+				}
+			}
+			if badSim == "" {
+				ok := sim.InjectKeyBytes(eb)
+				var evs []Event
+				for len(sim.evch) > 0 {
+					evs = append(evs, <-sim.evch)
+				}
+				if !ok || !one(evs, r) {
+					badSim = fmt.Sprintf("InjectKeyBytes(%% x) for U+%%04X returned %%v with %%d events", eb, r, ok, len(evs))
+				}
+			}
+		}
+		if bad == "" {
+			fmt.Printf("CHARSET %%s OK %%d\n", cs.name, n)
+		} else {
+			fmt.Printf("CHARSET %%s FAIL %%s\n", cs.name, bad)
+			fail("%%s: %%s", cs.name, bad)
+		}
+		if badSim == "" {
+			fmt.Printf("SIMCHARSET %%s OK %%d\n", cs.name, n)
+		} else {
+			fmt.Printf("SIMCHARSET %%s FAIL %%s\n", cs.name, badSim)
+			fail("%%s: %%s", cs.name, badSim)
+		}
+	}`, tbl.String(), step))
+	src = strings.Replace(src, "\t\"github.com/gdamore/encoding as gencoding\"\n", "\tgencoding \"github.com/gdamore/encoding\"\n", 1)
+	out, rerr := runOverlayTest(run.Eng.Repo, run.Eng.Repo, src, 240*time.Second, nil)
+	seen := 0
+	prefix := "CHARSET"
+	if run.Def.ID == "C18" {
+		prefix = "SIMCHARSET"
+	}
+	for _, ln := range strings.Split(out, "\n") {
+		f := strings.Fields(ln)
+		if len(f) < 3 || f[0] != prefix {
+			continue
+		}
+		seen++
+		ok := f[2] == "OK"
+		what := "the input driver"
+		if prefix == "SIMCHARSET" {
+			what = "SimulationScreen.InjectKeyBytes"
+		}
+		g := run.AddObligation(fmt.Sprintf("charset[%s]/every-character-one-event", f[1]), "bounded", BoolT(ok),
+			fmt.Sprintf("every character of %s comes out of %s as exactly one rune key event, in one read and split at every byte boundary: %s", f[1], what, strings.Join(f[2:], " ")))
+		g.ReplayGo = src
+	}
+	if seen != len(ents) {
+		run.Errors = append(run.Errors, fmt.Sprintf("charset validator: %d of %d charsets reported (%v) %s", seen, len(ents), rerr, tail(out, 600)))
+	}
+	run.Extra["charsets_enumerated_natively"] = seen
+	run.Extra["charset_enumeration_step_for_multibyte_sets"] = step
 }
